@@ -117,7 +117,12 @@ struct Leaf {
 template<char Op, class L, class R>
 struct Bin {
 };
+template<class L>
+struct Neg {
+};
 
+template<class L, class Vals>
+auto cnl_eval(Neg<L>, Vals const& v);
 template<int I, class Vals>
 auto cnl_eval(Leaf<I>, Vals const& v)
 {
@@ -134,10 +139,18 @@ auto cnl_eval(Bin<Op, L, R>, Vals const& v)
     else return l / r;
 }
 
+template<class L, class Vals>
+auto cnl_eval(Neg<L>, Vals const& v)
+{
+    return -cnl_eval(L{}, v);
+}
+
 struct RefVal {
     Rat v;
     bool div0 = false;
 };
+template<int Mode, class L, class Vals>
+RefVal ref_eval(Neg<L>, Vals const& v, std::array<Rat, 4> const& ex);
 template<int Mode, int I, class Vals>
 RefVal ref_eval(Leaf<I>, Vals const&, std::array<Rat, 4> const& ex)
 {
@@ -161,8 +174,18 @@ RefVal ref_eval(Bin<Op, L, R>, Vals const& v, std::array<Rat, 4> const& ex)
     }
 }
 
+template<int Mode, class L, class Vals>
+RefVal ref_eval(Neg<L>, Vals const& v, std::array<Rat, 4> const& ex)
+{
+    RefVal l = ref_eval<Mode>(L{}, v, ex);
+    if (l.div0) return l;
+    return {-l.v, false};
+}
+
 template<char Op, class L, class R>
 std::string tree_str(Bin<Op, L, R>);
+template<class L>
+std::string tree_str(Neg<L>);
 template<int I>
 std::string tree_str(Leaf<I>)
 {
@@ -172,6 +195,12 @@ template<char Op, class L, class R>
 std::string tree_str(Bin<Op, L, R>)
 {
     return "(" + tree_str(L{}) + Op + tree_str(R{}) + ")";
+}
+
+template<class L>
+std::string tree_str(Neg<L>)
+{
+    return "-" + tree_str(L{});
 }
 
 // what narrowing `exact` into T must do
@@ -322,6 +351,12 @@ template<class T, class RT, class OT>
         T2R('+') T2R('-') T2R('*') T2R('/')
 #undef T2R
 #undef T2
+    }
+    if (depth >= 2) {
+        run_tree<T, RT, OT, Neg<Bin<'+', A, B>>, 2>(pname, space);
+        run_tree<T, RT, OT, Bin<'*', Neg<A>, B>, 2>(pname, space);
+        run_tree<T, RT, OT, Bin<'-', A, Neg<Bin<'*', B, C>>>, 3>(pname, space);
+        run_tree<T, RT, OT, Bin<'/', Neg<A>, B>, 2>(pname, space);
     }
     if (depth >= 3) {
 #define T3(o1, o2, o3) \
